@@ -11,7 +11,7 @@ def mwLine (toks : List String) : String :=
     | some ch, some rc, some us =>
       let chain := (if ch = "-" then [] else ch.splitOn ",").map fun v =>
         if v = "a" then Verdict.accept else Verdict.reject ((v.drop 1).toString.toNat?.getD 0)
-      let effs := admit chain rc us
+      let effs := admission chain rc us
       let calls := effs.filterMap fun e => match e with | .mwCalled i => some i | _ => none
       let res := effs.filterMap fun e => match e with
         | .connectError d => some s!"reject:{d}" | .connected => some "connected" | _ => none
